@@ -16,7 +16,7 @@ BUDGET = {"quick": 50, "thorough": 900}
 RULE = (
     "1-8 messages with due time T = now + d, d from {-1 h .. -1 ms, 0, 1 ms .. 999 ms, 1-30 s, 1 h, 1 y}, created through "
     "Job(deferred_until=...) or through next_execution_time (the shape of a retry / reschedule; with or without a period of its own), on one queue with 1-3 "
-    "priorities (20%: a far-future message first, some messages sent back by the consumer through requeue() with a new due time, sooner-due ones enqueued 1-4 s later while the consumer idles); random clock phase inside the second; a NORMAL consumer with free capacity starts before or after the enqueues "
+    "priorities; process time zone UTC, UTC+9 or UTC-7; (20%: a far-future message first, some messages sent back by the consumer through requeue() with a new due time, sooner-due ones enqueued 1-4 s later while the consumer idles); random clock phase inside the second; a NORMAL consumer with free capacity starts before or after the enqueues "
     "at a seeded polling phase and acks what it gets; optionally a DELAYED-category observer takes and rejects messages. "
     "Oracle: (i) no message leaves the broker's waiting/delayed storage towards a NORMAL consumer earlier than T - 1 ms (take "
     "instant read from the broker side); (ii) 1 ms before T the broker-side place is 'delayed' only; (iii) delivery within L "
@@ -48,7 +48,7 @@ def gen(rng, broker, tier):
         return {"msgs": msgs, "consumer_start_us": rng.choice([0, 0, 300_000]), "observer": False, "observer_at_us": 0, "patient": True,
                 "knobs": {"step_cost": rng.choice([0, 0, 1, "rand"]),
                           "net": {"lat_lo": 50, "lat_hi": rng.choice([300, 3000]), "frag_p": rng.choice([0, 0.1])},
-                          "mem_update_delayed": 1.0}}
+                          "mem_update_delayed": 1.0, "tz": rng.choice([None, None, "Asia/Tokyo", "America/Phoenix"])}}
     n = rng.randint(1, 8)
     prios = rng.choice([[5], [5], [0, 5, 9]])
     cap = 12_000_000 if broker == "mem" else 30_000_000
@@ -65,7 +65,7 @@ def gen(rng, broker, tier):
             "observer": rng.random() < 0.25, "observer_at_us": rng.randint(0, 3_000_000), "patient": rng.random() < 0.5,
             "knobs": {"step_cost": rng.choice([0, 0, 1, "rand"]),
                       "net": {"lat_lo": 50, "lat_hi": rng.choice([300, 3000]), "frag_p": rng.choice([0, 0.1])},
-                      "mem_update_delayed": 1.0}}
+                      "mem_update_delayed": 1.0, "tz": rng.choice([None, None, "Asia/Tokyo", "America/Phoenix"])}}
 
 
 async def _main(sim, sc, out):
